@@ -534,6 +534,16 @@ def gen_cases(ck):
     cases.append(case(d, ops=(OPEN, CLOSE, GENAPI), fam="handle state"))
     cases.append(case(d, ops=(OPEN, GENAPI, CLOSE, OPEN, GENAPI), fam="handle state"))
     cases.append(case(d, ops=(OPEN, READ, FILES, 200, GENAPI, READ, FILES, 30, GENAPI), fam="handle state"))
+    # the packet buffer is shrunk back after the retrieval: an over-long raw acknowledge to a later read is
+    # refused by the channel or not (visible in the wire log); second retrieval restores to the capacity
+    for raw_len in (28, 33, 40, 49, 100, 300):
+        for twice in (False, True):
+            d = Dev(max_ack=1024)
+            d.entry(ver32(1, 0, 0), doc("buf", 300), sha="ok")
+            k = 8 + (7 if twice else 0)
+            ops = (OPEN, GENAPI) + ((GENAPI,) if twice else ()) + (READ, FILES, 4)
+            cases.append(case(d, ops=ops, plans=[6, 6 + k, 5, -1, 1, 2, xhex(bytes(raw_len))], fam="buffer restore",
+                              lenient=True))
     # table at the very top of the address space; manifest address itself hostile
     for n in (1, 2):
         top = U64 - 8 - 64 * n
@@ -577,11 +587,12 @@ def gen_cases(ck):
     d = Dev(max_ack=128)
     d.entry(ver32(1, 0, 0), z, comp=1, sha=hashlib.sha1(body).digest())     # hash of the *unzipped* text: wrong
     cases.append(case(d, fam="hash"))
-    h = bytearray(20)
-    h[19] = 1                                                                 # a hash that is almost absent
-    d = Dev(max_ack=128)
-    d.entry(ver32(1, 0, 0), body, sha=bytes(h))
-    cases.append(case(d, fam="hash"))
+    for pos in range(20):                                                     # a hash that is almost absent
+        h = bytearray(20)
+        h[pos] = 1 << (pos % 8)
+        d = Dev(max_ack=128)
+        d.entry(ver32(1, 0, 0), body, sha=bytes(h))
+        cases.append(case(d, fam="hash"))
     for files in ([], [("a.xml", body), ("b.xml", doc("other", 90))], [("a.xml", body)] * 2,
                   [("d/", b""), ("d/a.xml", body)]):
         for method in (zipfile.ZIP_STORED, zipfile.ZIP_DEFLATED):
@@ -658,10 +669,10 @@ def gen_cases(ck):
         c = case(d, fam="corruption: " + what)
         w, _, _ = parse_tokens(c.toks)
         mm = manifest_of(w)
-        if mm and any(e["size"] is not None and e["size"] >= (1 << 22) for e in mm[1]):
-            continue
-        if mm and mm[0] > 65536:
-            continue
+        if mm and any(e["size"] is not None and e["size"] >= (1 << 31) for e in mm[1]):
+            continue                    # the 'absurd size' family (a process abort per case) covers these
+        if mm and (mm[0] > 4096 or any(e["size"] is not None and e["size"] >= (1 << 16) for e in mm[1])):
+            c.meta["model"] = False     # unary fuel in the model: implementation + predicate only
         cases.append(c)
     # zip damage: Python's and Rust's zip readers need not agree on what is still readable ->
     # property only: Err, or what Python extracts, or the undamaged text; never anything else
@@ -797,7 +808,10 @@ def main():
     ck.phase("impl")
     both = [i for i, c in enumerate(cases) if c.meta.get("model", True)]
     only = [i for i, c in enumerate(cases) if not c.meta.get("model", True)]
-    model = ck.run_model_terms(["XmlFetch"], [model_term(cases[i]) for i in both], per_eval=20, jobs=16)
+    model = []
+    for lo in range(0, len(both), 1600):        # bounded memory per coqc process
+        model += ck.run_model_terms(["XmlFetch"], [model_term(cases[i]) for i in both[lo:lo + 1600]], per_eval=20,
+                                    jobs=16)
     ck.phase("model")
     fams = sorted({c.meta["fam"] for c in cases})
     for fam in fams:
